@@ -17,7 +17,7 @@ import (
 //
 // World: real StreamProcessor.WritePacket on one end of a simnet link, real
 // StreamProcessor.ReadPacket on the other; writer and reader are separate
-// tasks. The link is the fault: its segmentation law, buffer capacity and
+// tasks, optionally with a concurrent keep-alive writer on the same processor. The link is the fault: its segmentation law, buffer capacity and
 // (message vs stream) contract are drawn per run.
 
 type c01sent struct {
@@ -28,6 +28,7 @@ type c01sent struct {
 type c01pkt struct {
 	typ      packet.Type
 	compress bool
+	rate     int64 // rateLimitBytesPerSecond argument of WritePacket (0 = unlimited)
 	payload  []byte
 	cmd      *packet.CommandPacket
 }
@@ -100,7 +101,7 @@ func init() {
 		ID:    "C01",
 		Level: "exploration",
 		Rule: "each run draws a packet sequence (1-12 packets over all base types, compression flag, body sizes biased to 0,1,2..5, pool/32K/64K/1M boundaries, max body in thorough) and a transport " +
-			"(stream or message contract, segmentation law: all/1-byte/1-7/MTU/cut-set around header offsets/mixed, bounded or unbounded buffer); writer and reader tasks are interleaved by the scheduler. " +
+			"(stream or message contract, segmentation law: all/1-byte/1-7/MTU/cut-set around header offsets/mixed, bounded or unbounded buffer); writer and reader tasks are interleaved by the scheduler; in a third of the runs a keep-alive task writes heartbeats on the same processor concurrently (oracle: decoded sequence is a merge of both writers), a fifth of the small bodies take the rate-limited chunked write path, half of the runs carry reverse traffic. " +
 			"A run is non-trivial when at least one Read returned fewer bytes than requested inside a packet header or body (a cut actually happened) or several packets were coalesced into one buffer; distinct = distinct (schedule hash) among those.",
 		Real: []string{"internal/stream StreamProcessor.WritePacket/ReadPacket", "internal/stream/compression", "internal/utils buffer pool", "internal/packet"},
 		Stub: []string{"transport: simnet link implementing the TCP/QUIC/KCP stream contract or the wsServerConn message contract"},
@@ -147,6 +148,10 @@ func c01Run(w *simrt.World, tier string) {
 			}
 			p.payload = c01Fill(c, sz)
 			total += sz
+			if sz <= 64<<10 && c.Intn(5, "ratelimit") == 4 {
+				// the rate-limited body path: chunked writes with token waits in between
+				p.rate = []int64{1 << 20, 64 << 10, 4096}[c.Intn(3, "ratelimit.bps")]
+			}
 		}
 		pkts = append(pkts, p)
 	}
@@ -198,13 +203,21 @@ func c01Run(w *simrt.World, tier string) {
 		}
 		w.Probe("duplex")
 	}
+	// keep-alive writer (a third of the runs): a second task writes heartbeats on the SAME processor
+	// while the packet writer is at work, as the product's keep-alive loops do; packets of the two
+	// writers may interleave but never inside one another
+	ka := 0
+	if c.Intn(3, "keepalive") == 2 {
+		ka = 1 + c.Intn(4, "keepalive.n")
+		w.Probe("keepalive")
+	}
 	a, b := simnet.NewLink(w, cfg)
 	spA := stream.NewStreamProcessor(a, a, w.Ctx)
 	spB := stream.NewStreamProcessor(b, b, w.Ctx)
-	fw := c01StartDirection(w, "fwd", spA, spB, a, b, pkts)
+	fw := c01StartDirection(w, "fwd", spA, spB, a, b, pkts, ka)
 	var bw *c01dir
 	if len(rev) > 0 {
-		bw = c01StartDirection(w, "rev", spB, spA, b, a, rev)
+		bw = c01StartDirection(w, "rev", spB, spA, b, a, rev, 0)
 	}
 	fw.wait()
 	if bw != nil {
@@ -239,19 +252,36 @@ type c01dir struct {
 	got        []*packet.TransferPacket
 	gotBytes   []int
 	rerr       error
-	wt, rt     *simrt.Task
+	kaSent     int // heartbeats accepted from the concurrent keep-alive writer
+	wt, rt, kt *simrt.Task
 	srcConn    *simnet.Conn
 	dstConn    *simnet.Conn
 }
 
-func c01StartDirection(w *simrt.World, name string, src, dst *stream.StreamProcessor, srcConn, dstConn *simnet.Conn, pkts []c01pkt) *c01dir {
+func c01StartDirection(w *simrt.World, name string, src, dst *stream.StreamProcessor, srcConn, dstConn *simnet.Conn, pkts []c01pkt, ka int) *c01dir {
 	d := &c01dir{name: name, pkts: pkts, srcConn: srcConn, dstConn: dstConn}
+	if ka > 0 {
+		d.kt = w.Spawn("keepalive-"+name, func() {
+			for i := 0; i < ka; i++ {
+				w.Yield("keepalive.tick")
+				if _, err := src.WritePacket(&packet.TransferPacket{PacketType: packet.Heartbeat}, false, 0); err != nil {
+					continue
+				}
+				d.kaSent++
+			}
+		})
+	}
 	d.wt = w.Spawn("writer-"+name, func() {
 		for _, p := range pkts {
 			tp := &packet.TransferPacket{PacketType: p.typ, Payload: p.payload, CommandPacket: p.cmd}
 			before := srcConn.BytesWritten()
-			nb, err := src.WritePacket(tp, p.compress, 0)
+			nb, err := src.WritePacket(tp, p.compress, p.rate)
 			wrote := int(srcConn.BytesWritten() - before)
+			if ka > 0 {
+				// per-packet byte accounting is not attributable while the keep-alive task writes too:
+				// take the writer's own report (the stream-level alignment check still counts every byte)
+				wrote = nb
+			}
 			if err != nil {
 				if wrote == 0 {
 					w.Probe("writer.rejected")
@@ -264,6 +294,9 @@ func c01StartDirection(w *simrt.World, name string, src, dst *stream.StreamProce
 				w.Violationf("C01:writer-count", "WritePacket reported %d bytes but wrote %d for %v", nb, wrote, p)
 			}
 			d.accepted = append(d.accepted, c01sent{p, wrote})
+		}
+		if d.kt != nil {
+			d.kt.Wait()
 		}
 		srcConn.CloseWrite()
 	})
@@ -292,6 +325,31 @@ func (d *c01dir) wait() {
 // check is the oracle: sequence equality against the generator's own list plus byte accounting.
 func (d *c01dir) check(w *simrt.World, cfg simnet.LinkConfig, suffix string) bool {
 	accepted, got, gotBytes, rerr := d.accepted, d.got, d.gotBytes, d.rerr
+	if d.kaSent > 0 {
+		// the decoded sequence must be a merge of the two writers' sequences: take out the keep-alive
+		// heartbeats (all identical, so preferring the packet writer's own heartbeats loses no merge)
+		left, i := d.kaSent, 0
+		var fg []*packet.TransferPacket
+		var fb []int
+		for k, g := range got {
+			mainWants := i < len(accepted) && accepted[i].p.typ == packet.Heartbeat && !accepted[i].p.compress
+			if g.PacketType == packet.Heartbeat && !mainWants && left > 0 {
+				left--
+				if gotBytes[k] != 1 {
+					w.Violationf("C01:consumed-count:keepalive"+suffix, "[%s] keep-alive heartbeat reported as %d bytes", d.name, gotBytes[k])
+					return false
+				}
+				continue
+			}
+			fg, fb = append(fg, g), append(fb, gotBytes[k])
+			i++
+		}
+		got, gotBytes = fg, fb
+		if left > 0 && len(got) >= len(accepted) {
+			w.Violationf("C01:missing-packet:keepalive"+suffix, "[%s] %d of %d keep-alive heartbeats written concurrently were never decoded; reader error: %v", d.name, left, d.kaSent, rerr)
+			return false
+		}
+	}
 	for i, s := range accepted {
 		if i >= len(got) {
 			w.Violationf("C01:missing-packet"+c01Class(accepted, i, cfg)+suffix, "[%s] packet %d %v was written (%d bytes) but never decoded; reader stopped after %d packets with error: %v", d.name, i, s.p, s.bytes, len(got), rerr)
